@@ -25,7 +25,7 @@ LEVEL_TEXT = ("Decides, for every write of a field of an openapiv3 schema type i
               "A flag may be a constant written under the listed predicate or the stored predicate itself (`nullable = get(\"nullable\") == Some(&Bool(true))`: one `eq`, never negated, constant true). "
               "A conversion handed over as `impl Fn` / a shared closure / a function item is examined where it is applied; a private carrier enum is followed per variant. "
               "The exclusive-bound flags must be decided by the presence of the exclusive keyword (the inclusive one may take part, as in the `match (min, exclusive_min)` spelling that rejects both). "
-              "Not decided: validator-level equivalence on instances, numeric narrowing (`f64 as i64`), per-value enum conversion, which polarity each flag arm writes.")
+              "Not decided: validator-level equivalence on instances, numeric narrowing (`f64 as i64`), per-value enum conversion, which polarity each flag arm writes. Also (R5): schema_extract_description replaces an allOf by its first element only under a test that the list has exactly one element.")
 LEVEL_NOTE = ("Trusts rustc MIR, the extractor, the slice over-approximation (extra origins can only raise alarms), std/indexmap adapter semantics "
               "(Option::map, Iterator::map/collect, clone_from, BTreeMap::get), and that openapiv3 serialises its fields under the OpenAPI keyword of the same name.")
 EXPLANATION = ("TABLE by field-sensitive flow: each aggregate operand / field assignment / `&mut field` call argument of an openapiv3 ADT in the converter region is sliced backwards "
@@ -144,7 +144,7 @@ CARRY_BASE = PLUMBING + [
 _COLLECT = [r"iter::Iterator::flatten<option-of-collection>$",    # `opt_vec.iter().flatten()` == `opt_vec.iter().flat_map(|v| v.iter())` (see _qualify)
             r"slice::<impl \[T\]>::iter$", r"BTreeMap::<K, V, A>::iter$", r"BTreeSet::<T, A>::iter$", r"option::Option::<T>::iter$",
             r"iter::Iterator::(map|flat_map|cloned|copied|collect)$",
-            r"iter::IntoIterator::into_iter$", r"iter::Iterator::next$",
+            r"iter::IntoIterator::into_iter$", r"iter::Iterator::next$", r"iter::FromIterator::from_iter$",   # `Vec::from_iter(it)` == `it.collect()`
             r"(vec::Vec::<T>|indexmap::IndexMap::<K, V>|BTreeMap::<K, V>)::(new|with_capacity)$",
             r"vec::Vec::<T, A>::push$", r"(indexmap::IndexMap::<K, V, S>|BTreeMap::<K, V, A>)::insert$"]
 # (`flat_map` whose closure yields an Option / Result is a filter_map: _qualify renames it, so it is not accepted here)
@@ -939,7 +939,17 @@ def r5_lone_allof_only(ctx):
     R = ctx.rule("C08.R5", "schema_extract_description hands back the first element of an allOf in place of the schema only under a test that the allOf has exactly one element", floor=1)
     f = ctx.need_fn(ctx.ds, R, r"^schema_util::schema_extract_description$")
     firsts = r"slice::<impl \[T\]>::first$|slice::<impl \[T\]>::get$|ops::Index::index$|Iterator::next$|slice::<impl \[T\]>::iter$|Vec::<T, A>::pop$|Vec::<T, A>::remove$"
-    sites = [(bb, t) for bb, t in f.live_calls(r"clone::Clone::clone$") if f.slice(t["args"][0]).has_call(firsts)]
+    # locals that borrow one element of a slice through a slice pattern (`[only]`, `[first, ..]`: a constant index)
+    elem_refs = set(st["pl"]["l"] for bb, i, st in f.stmts() if st["rv"]["rv"] == "ref" and any(isinstance(e, dict) and "cidx" in e for e in st["rv"]["pl"]["p"]))
+    sites = [(bb, t) for bb, t in f.live_calls(r"clone::Clone::clone$")
+             if f.slice(t["args"][0]).has_call(firsts) or any(f.slice(t["args"][0]).touches_local(l) for l in elem_refs)]
+
+    def is_one(o):
+        if o.get("k") == "const":
+            return (o.get("val") or {}).get("int") == 1
+        sl1 = f.slice(o)
+        lits = [a for a in sl1.atoms if a[0] == "lit"]
+        return not sl1.callees and not sl1.params() and len(lits) == 1 and '"int": 1,' in lits[0][1] + ","
     # an element reached through a slice pattern `[only]` has no call on the way; its guard is the same length test
     guards = []
     for sbb, t in f.switches():
@@ -947,15 +957,14 @@ def r5_lone_allof_only(ctx):
         if d.get("k") not in ("copy", "move"):
             continue
         sl = f.slice(d)
-        if sl.has_call(r"::len$") or any(a[0] == "len" for a in sl.atoms):
+        if sl.has_call(r"::len$") or any(a[0] == "len" or (a[0] == "unop" and a[1] == "PtrMetadata") for a in sl.atoms):
             for v, tgt in t["targets"]:
                 if v == 1 and f.local_ty(d["pl"]["l"]) != "bool" or (v == 1 and d["pl"]["p"]):
                     guards.append((sbb, tgt))
             # `len == 1` / `1 == len`
             if f.local_ty(d["pl"]["l"]) == "bool" and not d["pl"]["p"]:
                 for dbb, kind, node in f.defs().get(d["pl"]["l"], []):
-                    if kind == "assign" and node["rv"]["rv"] == "binop" and node["rv"]["op"] == "Eq" and \
-                            any((o.get("val") or {}).get("int") == 1 for o in (node["rv"]["a"], node["rv"]["b"]) if o.get("k") == "const"):
+                    if kind == "assign" and node["rv"]["rv"] == "binop" and node["rv"]["op"] == "Eq" and any(is_one(o) for o in (node["rv"]["a"], node["rv"]["b"])):
                         tb, fb = f.bool_edges(sbb)
                         if tb is not None:
                             guards.append((sbb, tb))
